@@ -229,6 +229,44 @@ func c09Case(run *evid.Run, i int, j *Journal) {
 			}
 		}
 	}
+	// a load from head entries with an EXCLUDE list (entries the caller already holds, e.g. a concurrent local
+	// branch): the loader returns them along with what it fetched; whatever the log then holds must be in its view
+	if h.Replicas > 1 && codec == "cbor" {
+		r := rng.Intn(h.Replicas)
+		l, other := x.Logs[r], x.Logs[(r+1)%h.Replicas]
+		if l.Len() > 0 && other.Len() > 0 {
+			src, oth := hx.Observe(l), hx.Observe(other)
+			loaded, err := x.W.LoadEntries(l.Heads().Slice(), x.Writer[r], &hx.LoadOpts{Exclude: other.GetEntries().Slice(), NoExplicit: rng.Intn(2) == 0})
+			run.Count("loads_from_head_entries_with_an_exclude_list", 1)
+			wit := func() map[string]any {
+				m := histSample(h)
+				m["at"] = fmt.Sprintf("final state, r%d loaded from its head entries with the entries of r%d as Exclude list", r, (r+1)%h.Replicas)
+				return m
+			}
+			if err != nil || loaded == nil {
+				run.Violate("C09/load-error", det("loader", "entries+exclude"), wit(), "loader failed: %v", err)
+			} else {
+				got := hx.Observe(loaded)
+				for hs := range src.Set {
+					if _, ok := got.Set[hs]; !ok {
+						run.Violate("C09/entries", det("loader", "entries+exclude"), wit(), "rebuilt log misses entry %s of the original", hx.Short(hs))
+						break
+					}
+				}
+				for hs := range got.Set {
+					if _, a := src.Set[hs]; !a {
+						if _, b := oth.Set[hs]; !b {
+							run.Violate("C09/entries", det("loader", "entries+exclude"), wit(), "rebuilt log holds %s, which neither the original nor the exclude list holds", hx.Short(hs))
+							break
+						}
+					}
+				}
+				if !model.EqualAsSets(got.Heads, model.Heads(got.Set)) || len(got.Values) != len(got.Set) {
+					run.Violate("C09/view-incomplete", det("loader", "entries+exclude"), wit(), "the rebuilt log holds %d entries but its view has %d; heads %v, unreferenced entries %v", len(got.Set), len(got.Values), hx.SortedShorts(got.Heads), hx.Shorts(model.Heads(got.Set)))
+				}
+			}
+		}
+	}
 	run.Eval(1)
 	run.Count("states_reloaded", nStates)
 	run.Count("distinct_completion_orders", len(orders))
